@@ -1,2 +1,11 @@
 import Plonk.Props.C10
-#print axioms Plonk.Props.C10.placeholder_bounds
+#print axioms Plonk.Props.C10.logic_extends
+#print axioms Plonk.Props.C10.logic_counts
+#print axioms Plonk.Props.C10.logic_sound
+#print axioms Plonk.Props.C10.logic_and_sound
+#print axioms Plonk.Props.C10.logic_xor_sound
+#print axioms Plonk.Props.C10.logic_complete
+#print axioms Plonk.Props.C10.logic_zero_pairs
+#print axioms Plonk.Props.C10.logic_exact
+#print axioms Plonk.Props.C10.logic_and_exact
+#print axioms Plonk.Props.C10.logic_xor_exact
